@@ -25,6 +25,12 @@ mod harness {
         Integer { value: Uint128::new(v), negative: kani::any() }
     }
 
+    /// BOUNDED (8-bit magnitudes) operand for the 128-bit divider circuit
+    fn any_integer_small() -> Integer {
+        let v: u8 = kani::any();
+        Integer { value: Uint128::new(v as u128), negative: kani::any() }
+    }
+
     /// mathematical value as (magnitude, is_strictly_negative)
     fn norm(i: &Integer) -> (u128, bool) {
         (i.value.u128(), i.negative && i.value.u128() != 0)
@@ -189,8 +195,8 @@ mod harness {
 
     #[kani::proof]
     fn c19_div_sign_and_checked() {
-        let a = any_integer_bounded();
-        let b = any_integer_bounded();
+        let a = any_integer_small();
+        let b = any_integer_small();
         let (ma, na) = norm(&a);
         let (mb, nb) = norm(&b);
         let r = a.checked_div(b);
